@@ -6,6 +6,22 @@ ROOT = os.path.dirname(os.path.dirname(os.path.abspath(__file__)))
 
 # property id -> (technique, level text, level note, design ref)
 CHECKS = {
+ "C05": ("static structural clauses only: ERR-PROPAGATION (error slot of every upstream subscribe site reaches an Error notification to the destination, from the subscribe-closure model) and ARITY (K+1 sites / K+1-tuples / counter constants of the CombineLatestWithK and ZipWithK families)",
+         "Narrow claim. The property quantifies over arrival orders (run-time histories), which static analysis cannot decide; what is decided is one of its clauses that is visible in the code's shape — 'an error from any source ends the output': every subscribe site's error slot forwards to the destination unless the operator consumes errors by definition — plus arity agreement of the fixed-arity families. Ordering, completion timing, loss/duplication are NOT decided.",
+         "Trusted: C01 (first terminal closes the destination) and C03 (teardown releases the other sources). Two test-asserted violations (TakeUntil/SkipUntil swallow the notifier's error) are known findings.",
+         "DESIGN.md section 4, C05"),
+ "C08": ("static who-may-use analysis of asynchrony constructs (goroutines, timer callbacks, channel sends) against the emission contexts of the subscribe-closure model (SYNC-EMISSION); structural checks of the hand-off queues (BOUNDED-QUEUE) and of the blocking producer lock (LOCK-REGION)",
+         "Static discipline check: in every operator with an upstream, each value emission provably runs in the subscribe body or inside an upstream callback (never under a goroutine/timer context, never parked in a channel) except in the documented hand-off/time-shift operators; the hand-off queues are one channel with the size parameter as capacity, all three notification kinds go through it, terminals are queued before close, dispatch is kind-exact. Decides 'nothing is handed to a hidden goroutine or queue' for all operators; the numeric run-ahead bound follows from channel semantics and is not measured.",
+         "Trusted: Go channel semantics; user callbacks do not start goroutines; Delay's unbounded queue is out of the property's list.",
+         "DESIGN.md section 4, C08"),
+ "C14": ("static analysis of blocking sites (Wait, Collect, range over channel, select) located by the model's contexts before the subscribe closure returns, against teardowns registered on the destination (NO-UNCANCELLABLE-BLOCK); context-case check of context-aware sources (CTX-WATCH); must-release of the teardown chain (RELEASE, SELF-UNSUBSCRIBE, ADD-TEARDOWN)",
+         "Static argument that upstream release is the teardown chain, plus the complementary who-may-block rule: every unbounded wait that runs before an operator's subscribe function returns is reported unless something registered on the destination can end it. Seven such waits exist today by design (Concat/FlatMap, Retry, OnErrorResumeNextWith, DoWhile, While, RepeatWith, SubscribeOn) and are recorded as known findings with demonstrations; any new blocking site, a dropped context case or a broken teardown link is reported.",
+         "Trusted: a Subscription closes only through its terminal, its Unsubscribe or a subscription it was added to; timer-bounded waits are accepted.",
+         "DESIGN.md section 4, C14"),
+ "C15": ("static structural clause: SEQUENTIAL-ATTEMPTS (awaited subscription per attempt, same iteration, after the subscribe site; or chained from the previous terminal slot) and RETRY-CTX, over the subscribe-closure model of the seven re-subscribing operators",
+         "Narrow claim. Counting attempts against the configuration is value-level and NOT decided. Decided: the structural necessary condition of 'strictly one after another' — each attempt's subscription is awaited before the loop continues (or the next source is subscribed from the previous one's terminal slot), attempts forward their values, Retry tests the context before each attempt and during the delay.",
+         "Trusted: Wait returns only when the subscription is closed (C06).",
+         "DESIGN.md section 4, C15"),
  "C07": ("static effect/placement analysis: emission context of every user-function call (USER-FN-CONTEXT) and go statement (GO-RECOVER) from the subscribe-closure model; structural checks of the core recover points (CORE-RECOVER); error-result discipline (ERR-RESULT-USED); Unwrap table (UNWRAP); CFG lock pairing on all functions (LOCK-PAIRING)",
          "Static discipline check: decides, for every operator, in which kind of place each user-supplied function runs and whether a panic there becomes an Error notification (subscribe body, next slot, guarded goroutine) or can only reach the hook / crash the process (error/complete slots, timer callbacks, bare goroutines); that the recover points of observableImpl/observerImpl exist and wrap the right calls; that returned errors are emitted and do not fall through; that no function exits holding a lock. Five genuine by-design violations are recorded as known findings. Does not inject faults.",
          "Trusted: lo.TryCatchWithErrorValue recovers; the notion of 'user-supplied' = function parameters of exported API functions (parameters of unexported helpers that only receive library literals are excluded, decided from the call sites).",
